@@ -16,6 +16,7 @@ pub fn gens() -> Vec<Gen> {
         // one issuer instance, 1-3 issuances in mixed formats: every credential must be exactly what
         // the strategy designates for ITS claims (every issued disclosure referenced by exactly one digest)
         Gen { name: "c05.issuer_sequence", prop: "C05", tags: &["sequence", "reset", "all_disclosures", "create_combined", "referenced"], cases: crate::gen_c11::cases_issuer, check: crate::gen_c11::check_issuer },
+        Gen { name: "c05.deep", prop: "C05", tags: &["deep", "depth", "nest", "create_sd_claims", "none"], cases: cases_deep, check },
         Gen { name: "c05.catalog", prop: "C05", tags: &["catalog", "provenance", "decoy"], cases: cases_catalog, check },
         Gen { name: "c05.enum", prop: "C05", tags: &["enum"], cases: cases_enum, check },
     ]
@@ -186,4 +187,33 @@ pub fn check(case: &J) -> Verdict {
     }
     let _ = FAR_EXP;
     Verdict::Pass
+}
+
+/// Designated claims below 1..63 container levels (objects, arrays, mixed).
+fn cases_deep(_rng: &mut Rng, sink: &mut dyn FnMut(J) -> bool) {
+    let mut n = 0usize;
+    for depth in [1usize, 2, 4, 8, 12, 16, 24, 30, 31, 32, 33, 34, 40, 48, 63] {
+        for kind in 0..3 {
+            let mut v = json!({"secret": "deep-secret-value", "plain": 1});
+            for d in 0..depth {
+                v = match (kind, d % 2) {
+                    (0, _) | (2, 0) => json!({ "l": v }),
+                    _ => json!([v]),
+                };
+            }
+            let claims = std(json!({ "d": v }));
+            let leaf = crate::oracle::all_paths(&claims).into_iter().find(|p| matches!(p.last(), Some(Seg::Key(k)) if k == "secret"));
+            let mut strategies = vec![Strategy::AllLevels, Strategy::TopLevel];
+            if let Some(leaf) = leaf {
+                strategies.push(Strategy::Custom(vec![crate::oracle::path_spelling(&leaf, false)]));
+                strategies.push(Strategy::Custom(vec![crate::oracle::path_spelling(&leaf[..leaf.len() - 1], true), crate::oracle::path_spelling(&leaf, true)]));
+            }
+            for st in strategies {
+                n += 1;
+                if !sink(Cfg::simple(claims.clone(), st).variant(n).to_json()) {
+                    return;
+                }
+            }
+        }
+    }
 }
